@@ -22,6 +22,7 @@ EXPLANATION = (
     " C16.M4: the name-encoding / template rule of C01.e re-judged on the mock_salts MIR: the deterministic mode must not change a claim's name."
     " C16.M5: the verifier's unpacking clauses (C01.a / C01.c / C03.V6: every value placed in the verified claims is the full walker's result; a disclosure that matched a digest is never dropped) re-judged on the mock_salts MIR: the claims are recovered unchanged in this build too."
     " C16.M6: as C14.S6 on the mock_salts MIR: a reused issuer's second issuance consists of exactly its own disclosures, in queue order."
+    " C16.M7 walk-infallible: no Err is constructed inside the payload builders: whatever can refuse the claims runs before the first queued salt is drawn."
 )
 ASSUMPTIONS = [
     "the interoperability tool under generate/ cannot be built offline (serde_yaml missing) and is not analysed",
